@@ -432,7 +432,15 @@ func processField(ctx context.Context, name string, schema *Schema) (parameter *
 	case jsonObjectType:
 		parameter.Components, err = buildABIParameterArrayForObject(ctx, schema.Properties)
 	case jsonArrayType:
-		parameter.Components, err = buildABIParameterArrayForObject(ctx, schema.Items.Properties)
+		// There is one level of "items" per array dimension - the properties of a tuple are on the innermost one
+		itemSchema := schema.Items
+		for itemSchema != nil && itemSchema.Type == jsonArrayType {
+			itemSchema = itemSchema.Items
+		}
+		if itemSchema == nil {
+			return nil, i18n.NewError(ctx, signermsgs.MsgInvalidFFIDetailsSchema, name)
+		}
+		parameter.Components, err = buildABIParameterArrayForObject(ctx, itemSchema.Properties)
 	}
 	if err != nil {
 		return nil, i18n.WrapError(ctx, err, signermsgs.MsgInvalidFFIDetailsSchema, name)
